@@ -353,6 +353,8 @@ def match_finding(findings, v):
             ok = ok and det.get('ret', None) == m['ret']
         if 'ret_re' in m:
             ok = ok and det.get('ret', None) is not None and re.search(m['ret_re'], str(det.get('ret')), re.S) is not None
+        for fld, rx in (m.get('detail_re') or {}).items():
+            ok = ok and re.search(rx, str(det.get(fld, '')), re.S) is not None
         if 'option_re' in m:
             ok = ok and re.search(m['option_re'], str(det.get('o', '')), re.S) is not None
         if ok:
